@@ -7,6 +7,7 @@
    (4) every field except (a, b) is determined by the history the challenges are derived from, so changing
    it changes the oracle's input; (5) two accepted (a, b) give a relation between folded generators and B. *)
 Require Import BP.Proofs.IntegrityLemmas BP.Proofs.VerifierLemmas BP.Proofs.CodecLemmas.
+Require Import BP.Proofs.IndepLemmas.
 Open Scope F_scope.
 
 Theorem C04_verdict_is_check :
@@ -100,3 +101,30 @@ Theorem C04_history_determines_all_but_final_scalars :
     /\ ipp_L (ipp p) = ipp_L (ipp p') /\ ipp_R (ipp p) = ipp_R (ipp p').
 Proof. intros K MO p p' m m' pn pn' H1 H2 H3 H4. eapply (history_determines_fields p p' m m' pn pn' EmptyString EmptyString); eassumption. Qed.
 Print Assumptions C04_history_determines_all_but_final_scalars.
+
+(* Closing the two "relation" theorems under the independence (discrete-log) hypothesis, stated on the
+   points involved: at the same challenges an accepted proof has exactly one pair of final scalars, exactly one
+   t_x, and the two blinding scalars can only move along r.dt~ + de~ = 0 (which changes the history w and r are
+   derived from, by C04_history_determines_all_but_final_scalars).  Non-vacuity: unit_vectors_indep2/3. *)
+Theorem C04_final_scalars_unique_under_independence :
+  forall (K : FieldOps) (FL : FieldLaws K) (MO : ModOps K) (ML : ModLaws MO) (B Bb : MO) (fw : weights K) (y u x w r : K)
+         (us : list K) (n1 n pn : nat) (Gs Hs Vs : list MO) (p p' : r1cs_proof K MO),
+    indep3 (foldG us (Gprime u n1 pn Gs)) (foldH us (Hprime y u n1 pn Hs)) B ->
+    A_I1 p' = A_I1 p -> A_O1 p' = A_O1 p -> S1 p' = S1 p -> A_I2 p' = A_I2 p -> A_O2 p' = A_O2 p -> S2 p' = S2 p ->
+    T_1 p' = T_1 p -> T_3 p' = T_3 p -> T_4 p' = T_4 p -> T_5 p' = T_5 p -> T_6 p' = T_6 p ->
+    t_x p' = t_x p -> t_x_blinding p' = t_x_blinding p -> e_blinding p' = e_blinding p ->
+    ipp_L (ipp p') = ipp_L (ipp p) -> ipp_R (ipp p') = ipp_R (ipp p) ->
+    check B Bb fw y u x w r us n1 n pn Gs Hs Vs p = m0 -> check B Bb fw y u x w r us n1 n pn Gs Hs Vs p' = m0 ->
+    ipp_a (ipp p') = ipp_a (ipp p) /\ ipp_b (ipp p') = ipp_b (ipp p).
+Proof. intros K FL MO ML B Bb fw y u x w r us n1 n pn Gs Hs Vs p p'; apply final_scalars_unique. Qed.
+Print Assumptions C04_final_scalars_unique_under_independence.
+
+Theorem C04_changed_scalars_unique_under_independence :
+  forall (K : FieldOps) (FL : FieldLaws K) (MO : ModOps K) (ML : ModLaws MO) (B Bb : MO) (fw : weights K) (y u x w r : K)
+         (us : list K) (n1 n pn : nat) (Gs Hs Vs : list MO) (p : r1cs_proof K MO) (tx txb eb : K),
+    indep2 B Bb -> w <> r ->
+    check B Bb fw y u x w r us n1 n pn Gs Hs Vs p = m0 ->
+    check B Bb fw y u x w r us n1 n pn Gs Hs Vs (with_scalars tx txb eb p) = m0 ->
+    tx = t_x p /\ (r * (txb - t_x_blinding p) + (eb - e_blinding p))%F = f0.
+Proof. intros K FL MO ML B Bb fw y u x w r us n1 n pn Gs Hs Vs p tx txb eb; apply changed_scalars_unique. Qed.
+Print Assumptions C04_changed_scalars_unique_under_independence.
